@@ -1,3 +1,5 @@
+import threading
+
 from excel2pycl.src.cell import Cell
 from excel2pycl.src.exceptions import E2PyclParserException
 from excel2pycl.src.tokens.base_token import BaseToken
@@ -6,6 +8,11 @@ from excel2pycl.src.tokens.base_token import BaseToken
 class CompositeBaseToken(BaseToken):
     _TOKEN_SETS = []
     _PROCESSED = False
+    # Results of get() while one formula is parsed, see AstBuilder.parse: {(token class, number of tokens left): result}.
+    # Every list handed to get() during one parse is a tail of the same token list, so its length identifies it.
+    # Without it each alternative of each token set parses the same tail again and the cost grows about sixfold
+    # with every level of nested calls.
+    _parse_state = threading.local()
 
     @classmethod
     def add_token_set(cls, tokens: list):
@@ -17,6 +24,18 @@ class CompositeBaseToken(BaseToken):
 
     @classmethod
     def get(cls, expression: list, in_cell: Cell):
+        memo = getattr(CompositeBaseToken._parse_state, 'memo', None)
+        if memo is None:
+            return cls._get(expression, in_cell)
+
+        key = (cls, len(expression))
+        if key not in memo:
+            memo[key] = cls._get(expression, in_cell)
+        token, rest = memo[key]
+        return token, (rest.copy() if isinstance(rest, list) else rest)
+
+    @classmethod
+    def _get(cls, expression: list, in_cell: Cell):
         control_construction_flag = False
         for tokens in cls.get_token_sets():
             new_expression_part = []
